@@ -22,8 +22,12 @@ def model_sched(rng, with_sink=True):
     h3 = [("can", rng.randrange(2))]
     if rng.random() < 0.3:
         h3.append(("can", rng.randrange(2)))
-    return {"cap": rng.choice([4, 8, 16]), "handlers": [h0, h1, h2, h3],
-            "outs": [[("all", 0, ("s", 0))]] if with_sink else []}
+    m = {"cap": rng.choice([4, 8, 16]), "handlers": [h0, h1, h2, h3],
+         "outs": [[("all", 0, ("s", 0))]] if with_sink else []}
+    if rng.random() < 0.3:
+        # the model arms events on itself from its init, with relative deadlines (off the driver's 10-ns lattice)
+        m["init"] = [("sch", ("r", rng.choice(DELAYS)), 0, ("c", 7000 + rng.randrange(100)), None, rng.choice([None, None, 10, 20]))]
+    return m
 
 
 def gen_sched(rng, n_cmds=None):
